@@ -255,7 +255,24 @@ func (c *Ctx) topReturn(st *State, fr *Frame, results []Val, res *FuncResult) {
 			env := c.envFor(st, fr, fr.entry)
 			bindResults(env, fr.fn.Signature, rts)
 			env.goal = true
-			c.oblige(st, fr, "atreturn", "", cl.Label, pos, env.evalBool(cl.E), cl.Props, cl.Src)
+			// a return clause that cannot be stated any more (it names a local the change removed) leaves THAT clause
+			// undecided, not the whole function: the other clauses of the function are still checked
+			func() {
+				defer func() {
+					if r := recover(); r != nil {
+						e, ok := r.(evalErr)
+						if !ok {
+							panic(r)
+						}
+						if c.loopNotes == nil {
+							c.loopNotes = map[string]bool{}
+						}
+						c.loopNotes["contract error in return clause #"+cl.Label+" (this clause is undecided, the rest of the function is checked): "+e.msg] = true
+					}
+				}()
+				g := env.evalBool(cl.E)
+				c.oblige(st, fr, "atreturn", "", cl.Label, pos, g, cl.Props, cl.Src)
+			}()
 		}
 		for _, cl := range fc.Clauses {
 			if cl.Kind != "ensures" {
